@@ -89,3 +89,10 @@ def rel_err(a, b, floor=0.0):
     den = np.maximum(np.abs(b), floor)
     den = np.where(den == 0.0, 1.0, den)
     return float(np.max(np.abs(a - b) / den)) if a.size else 0.0
+
+
+# Measured-conditioning tolerances: when a tight tolerance fails, the reference side is re-evaluated with its inputs moved by
+# one unit roundoff; a deviation of up to COND_FACTOR times the observed change is attributed to rounding. One probe samples
+# one rounding pattern; float64 pipelines of a few hundred operations exceed a single sample by up to ~30x (measured), seeded
+# defects exceed it by 1e3..1e12.
+COND_FACTOR = 50.0
